@@ -52,8 +52,8 @@ type HistoryCfg struct {
 }
 
 var histTags = []string{"NAME", "BIRT", "DEAT", "DATE", "PLAC", "NOTE", "SEX", "OCCU", "_UID", "BURI", "BAPM", "RESI", "TITL",
-	"_FID", "_FSFTID", "Note", "Name", "note"}
-var histValues = []string{"", "Ann /Lee/", "3 Sep 1943", "Sydney", "M", "F", "x", "EE13561DDB204985BFFDEEBF82A5226C"}
+	"_FID", "_FSFTID", "Note", "Name", "note", "FAMS", "FAMC", "FAMS"}
+var histValues = []string{"", "Ann /Lee/", "3 Sep 1943", "Sydney", "M", "F", "x", "EE13561DDB204985BFFDEEBF82A5226C", "@F1@", "@F2@"}
 
 func genHistoryCase(prop, tier string, r *rand.Rand) *Case {
 	o := GraphOpts{People: 1 + r.IntN(6), DeathProb: 0.5, BaseYear: 1800, Span: 150, Sources: r.IntN(2), UIDProb: 0.3,
